@@ -290,7 +290,7 @@ inductive PackOut where
   | noop                  -- empty storage, or the pack would not free anything
   | redundant             -- RedundantPackWarning (logged; nothing changes)
   | error (e : PackErr)   -- an exception left pack; nothing changes
-deriving Repr
+deriving Repr, DecidableEq
 
 /-- the history after the call -/
 def PackOut.hist (h : History) : PackOut → History
@@ -330,7 +330,7 @@ def packFS (h : History) (T : Tid) (gc : Bool) : PackOut :=
 structure MState where
   h : History
   lastPack : Option Tid
-deriving Repr
+deriving Repr, DecidableEq
 
 /-- remove the records not selected by `keep`; a transaction that lost a record gets status
     `'p'` and disappears when it lost its last one (`TransactionRecord.pack`) -/
@@ -352,7 +352,7 @@ def mappingSweep (h1 : History) (T : Tid) : Except PackErr History :=
   | none => .error .fuel
   | some S =>
     if S.all (fun o => !(recsOf h1 o).isEmpty) then .ok (prune (fun _ o => S.contains o) h1)
-    else .error .keyError      -- `self._data.pop(oid)`: storage left inconsistent
+    else .error .keyError      -- `self._data[oid]` KeyError: the step-1 state stays (nothing popped)
 
 def packMapping (s : MState) (T : Tid) (gc : Bool) : MState × PackOut :=
   if s.h.all (fun t => t.recs.isEmpty) then (s, .noop)          -- `if not self._data: return`
